@@ -2,6 +2,7 @@ package graph
 
 import (
 	"context"
+	"strings"
 	"sync"
 
 	"github.com/vektah/gqlparser/v2/ast"
@@ -105,4 +106,41 @@ func Harness_C07_sharedDocument() {
 	zzsym.Assert(ra.data == want(true), "a request is answered like an uncached one whatever runs beside it (s=true)")
 	zzsym.Assert(rb.data == want(false), "a request is answered like an uncached one whatever runs beside it (s=false)")
 	zzsym.Reach("c07.doc.concurrent")
+}
+
+func Setup_C07_panicHistory() { probeSetup() }
+
+// Harness_C07_panicHistory: two operations in one process, each with a
+// resolver that panics at a different position, under the default recover
+// function (a server on which SetRecoverFunc was never called): each
+// response is the reference's for that operation alone - the error of the
+// second carries its own path, not anything of the first.
+func Harness_C07_panicHistory() {
+	docs := []string{
+		`{ me { best { id } } }`,
+		`{ me { pet { __typename } name } }`,
+		`{ users { link { id } } }`,
+		`{ me { friends { boss { id } } } }`,
+	}
+	spots := []string{"me/User.best", "me/User.pet", "users[0]/User.link", "me.friends[0]/User.boss"}
+	i1 := zzsym.Choice("first", len(docs))
+	i2 := zzsym.Choice("second", len(docs))
+	run := func(i int) (runResult, ref.Result) {
+		doc := mustLoad(docs[i])
+		w := newWorld(0, false)
+		w.defaultRecover = true
+		w.outs["/Query.users"] = ref.Out{List: users("users[0]")}
+		w.outs["me/User.friends"] = ref.Out{List: users("me.friends[0]")}
+		w.outs[spots[i]] = ref.Out{K: ref.KPanic}
+		op := doc.Operations[0]
+		got := runOp(w, doc, op, nil)
+		want := ref.Execute(pSchema, doc, op, nil, w)
+		return got, want
+	}
+	run(i1)
+	got, want := run(i2)
+	zzsym.Event("errors", strings.Join(got.errs, " "))
+	zzsym.Assert(got.data == want.Data, "the data of the second operation is its own")
+	zzsym.Assert(len(want.Errors) == 1 && sameErrors(got.errs, want.Errors), "the error of the second operation carries its own path, whatever panicked before")
+	zzsym.Reach("c07.panics")
 }
